@@ -773,7 +773,7 @@ func specC11(c *Case, ps []*Probe) []string {
 	return specFromProbes("")(c, ps)
 }
 
-var dfNames = []string{"df", "d f", "x'y", "dflt_1", "Ünï"}
+var dfNames = []string{"df", "d f", "x'y", "dflt_1", "Ünï", " df", "df ", "\tdf\n", " ", "\t"}
 
 // genDfPairs (C11): token sequences and trees, each with a default field that does not occur in the query.
 func genDfPairs(rng *gen.Rng, seqLen, seqSample, trees int, emit func(Case)) {
